@@ -322,11 +322,15 @@ func checkObjdump(o *Out, idx int, g *genFile, dump string, text string) {
 		}
 		want := map[int]bool{pos + 1: true}
 		p := pos + 1
+		misordered := ""
 		for _, nd := range fn.Nodes {
 			switch x := nd.(type) {
 			case *ir.Instruction:
 				for p < len(lines) && (lines[p] == "" || !strings.HasPrefix(lines[p], "\t"+x.OpcodeWithSuffixes())) {
 					p++
+				}
+				if p >= len(lines) && misordered == "" {
+					misordered = "instruction " + x.OpcodeWithSuffixes()
 				}
 				want[p+1] = true
 				p++
@@ -334,8 +338,15 @@ func checkObjdump(o *Out, idx int, g *genFile, dump string, text string) {
 				for p < len(lines) && lines[p] != string(x)+":" {
 					p++
 				}
+				if p >= len(lines) && misordered == "" {
+					misordered = "label " + string(x)
+				}
 				p++
 			}
+		}
+		if misordered != "" {
+			o.Plan.GoViolations = append(o.Plan.GoViolations, GoViolation{Key: "print:node-out-of-order", Desc: fmt.Sprintf("case %d: in %s the %s is not printed after the node that precedes it in the program (labels and instructions must appear in program order)", idx, fn.Name, misordered), Replay: map[string]any{"file": g.Desc, "text": text}})
+			return
 		}
 		g0, ok := got[fn.Name]
 		if !ok {
